@@ -159,6 +159,30 @@ def correspond(ctx):
         ok = [(n_, pr) for n_, pr, _ in ops] == model and all(n_ in want_angle and abs(a_ - want_angle[n_]) < 1e-15 for n_, _, a_ in ops)
         if not ok:
             ctx.mismatch("create_heisenberg_circuit gate list vs CircuitLib.heis_step", {"L": L, "periodic": periodic}, ops, model, key="heis-gates")
+    # Fermi-Hubbard chain: gate list and angles of one sub-step (repeated num_trotter_steps * timesteps times)
+    from mqt.yaqs.core.libraries.circuit_library import create_1d_fermi_hubbard_circuit
+
+    fc, fe, fi = [], [], []
+    for L in range(1, 6 if ctx.quick else 9):
+        for nsub, steps in ((1, 1), (2, 1), (3, 2)):
+            u_, t_, mu_, dt = 0.9, 0.7, 0.4, 0.2
+            qc = create_1d_fermi_hubbard_circuit(L, u_, t_, mu_, nsub, dt, steps)
+            ops = [(ci.operation.name, tuple(qc.find_bit(q).index for q in ci.qubits), float(ci.operation.params[0])) for ci in qc.data if ci.operation.name != "barrier"]
+            fi.append(ops)
+            fe.append(f"fh_step {L}%nat")
+            fc.append((L, nsub, steps, {"AMu": mu_ * dt / (2 * nsub), "AU": -u_ * dt / (2 * nsub), "AHop": -dt * t_ / nsub}))
+    fv = common.coq_eval_sharded(HEADER, fe, tag="c07f")
+    gname = {"FP": "p", "FCP": "cp", "FXX": "rxx", "FYY": "ryy"}
+    for (L, nsub, steps, ang), ops, mv in zip(fc, fi, fv):
+        one = [(gname[g[0]], tuple(g[1:]), ang[a[0]]) for (a, g) in mv]
+        model = one * (nsub * steps)
+        ctx.case(nontrivial_key=("fh-circuit", L, nsub, steps) if L > 1 else None, validated=True)
+        ctx.count("fermi_hubbard_circuits")
+        ok = len(ops) == len(model) and all(o[0] == m[0] and o[1] == m[1] and abs(o[2] - m[2]) < 1e-15 for o, m in zip(ops, model))
+        if not ok:
+            bad = next((k for k, (o, m) in enumerate(zip(ops, model)) if not (o[0] == m[0] and o[1] == m[1] and abs(o[2] - m[2]) < 1e-15)), min(len(ops), len(model)))
+            ctx.mismatch("create_1d_fermi_hubbard_circuit gate list and angles vs CircuitLib.fh_step", {"L": L, "num_trotter_steps": nsub, "timesteps": steps},
+                         {"gates": len(ops), "first_difference_at": bad, "there": ops[bad] if bad < len(ops) else None}, {"gates": len(model), "there": model[bad] if bad < len(model) else None}, key="fh-gates")
     hamiltonian_correspondence(ctx)
     bose_correspondence(ctx)
     transmon_correspondence(ctx)
